@@ -161,6 +161,41 @@ def run(ctx):
   ctx.check(ok, 'C13.metadata', construct(dec), 'the original-class substitution is used exactly when no registered methods need overriding',
             'the choice between plain and substituting metaclass call changed', dec.loc(), instance='no-overrides')
 
+  # ---- C13.method-detection: what counts as "a registered method that needs overriding"
+  fm = ctx.func('config._find_registered_methods')
+  ism = fm.nested.get('is_method')
+  if ism is None:
+    raise AnalysisError('_find_registered_methods.is_method vanished')
+  g5, facts5 = std_facts(prog, ism)
+  p5 = ism.params[0]
+
+  def atom_m(e):
+    t = u(e).replace(' ', '')
+    if t == 'inspect.isfunction(%s)' % p5:
+      return 'is_function'
+    if t == '%s.__module__==base.__module__' % p5:
+      return 'same_module'
+    if t == 'getattr(base,%s.__name__,None)==%s' % (p5, p5):
+      return 'is_class_attr'
+    if t in ('qualname_parts[-2]==base.__name__',):
+      return 'qual_parent_is_class'
+    if t == 'len(qualname_parts)>1':
+      return 'qualified'
+    return None
+  trues = [n for n in g5.live_nodes() if n.kind == 'return' and isinstance(n.ast.value, ast.Constant) and n.ast.value.value is True]
+  ctx.expect_at_least('positive returns of is_method', len(trues), 1)
+  qdef_ok = any(isinstance(a, ast.Assign) and u(a.targets[0]) == 'qualname_parts' and u(a.value).replace(' ', '') == "%s.__qualname__.split('.')" % p5
+                for a in walk_local(ism.node))
+  for n in trues:
+    miss = facts_imply(facts5[n.id], [('a plain function', 'is_function'), ('defined in the class\'s module', 'same_module'),
+                                      ('reachable under its own name on the class', 'is_class_attr'),
+                                      ('whose qualified name has the class as parent', 'qualified and qual_parent_is_class')], atom_m)
+    ctx.check(not miss and qdef_ok, 'C13.method-detection', construct(ism),
+              'a class attribute counts as a method to override only if it is a function of the class\'s module, reachable under its own name, whose __qualname__ parent is the class',
+              'is_method accepts attributes that are not methods of the class (missing: %s): a registered helper held as a class attribute makes '
+              'Gin build a method-overriding subclass, so instances are no longer exactly the original class (and no longer pickle)'
+              % ', '.join(l for l, _ in miss), ism.loc(n.ast), instance='is_method')
+
   # ---- C13.interactive
   im = ctx.func('config.interactive_mode')
   g3 = prog.cfg(im)
